@@ -618,6 +618,14 @@ def serializeParameters (state : List (Param × PyVal)) (subset : Option (List S
 def findParam (ps : List Param) (name : String) : Option Param :=
   ps.find? (fun p => p.name == name)
 
+/-- src: parameterized.py Parameterized.__init__ — `Cls(**kw)`: every keyword is validated by its
+Parameter (an unknown name is rejected); the rebuilt object then holds the keyword values, read
+back here in declaration order -/
+def modelRebuild (ps : List Param) (l : List (String × PyVal)) : Except String (List (String × PyVal)) :=
+  if l.all (fun (n, v) => match findParam ps n with | some p => p.validB v | none => false) then
+    .ok (ps.filterMap fun p => (l.find? (fun x => x.1 == p.name)))
+  else .error "rejected"
+
 /-- src: serializer.py JSONSerialization.deserialize_parameters — the loop -/
 def deserializeFields (ps : List Param) (subset : Option (List String)) :
     List (String × Json) → Except Err (List (String × PyVal))
